@@ -263,8 +263,8 @@ class Translator:
             if n == "arctan2" and len(args) == 2:
                 y, x = (self.expr(a, d, env) for a in args)
                 return f"(Complex.arg ⟨{x}, {y}⟩)" if R else f"(Float.atan2 {y} {x})"
-            if n in ("real",) and len(args) == 1:
-                return self.expr(args[0], d, env)
+            if n in ("real", "atleast_1d", "asarray") and len(args) == 1:
+                return self.expr(args[0], d, env)      # shape / dtype glue: pointwise identity
             if n == "imag" and len(args) == 1:
                 self.expr(args[0], d, env)           # must be translatable
                 return "(0 : ℝ)" if R else "(0 : Float)"   # real-valued model
@@ -783,6 +783,8 @@ class Translator:
         R = d == "real"
         ty = "ℝ" if R else "Float"
         ns = "TR" if R else "TF"
+        if fn.decorator_list:
+            raise Refusal("decorated function: " + ", ".join(ast.unparse(x) for x in fn.decorator_list))
         fun_params = spec.get("fun_params", {})
         params = [a.arg for a in fn.args.args]
         defaults = fn.args.defaults
@@ -826,6 +828,7 @@ class Translator:
         self.cur_name = san(fn.name)
         self.aux, self._loops = [], 0
         lets, guards, notes = [], [], []
+        guard_all = []
         body = list(fn.body)
         if body and isinstance(body[0], ast.Expr) and isinstance(body[0].value, ast.Constant):
             body = body[1:]
@@ -856,9 +859,11 @@ class Translator:
             prev_n = len(lets)
             text = ast.unparse(st)
             first = text.splitlines()[0]
-            if first in glue:
+            if text in glue:           # the WHOLE statement must be the declared glue
                 notes.append(f"glue skipped: {first}")
                 continue
+            if first in {g.splitlines()[0] for g in glue}:
+                raise Refusal(f"declared glue statement changed: {first}")
             if ret is not None:
                 raise Refusal(f"statement after return: {first}")
             ctx = {"guards": guards, "ret": None, "rettuple": 0, "top": True, "ty": ty}
@@ -877,6 +882,14 @@ class Translator:
             # guard: if np.any(cmp): raise
             if isinstance(st, ast.If) and len(st.body) == 1 and isinstance(st.body[0], ast.Raise) and not st.orelse:
                 guards.append(self.cond(st.test, d, env))
+                # pointwise reading: `np.any(c)` = "some element is rejected".  A guard written with
+                # `all` rejects only when EVERY element is bad - a different array semantics that
+                # the pointwise term cannot show, so it is made visible in the name of the guard.
+                for nd in ast.walk(st.test):
+                    if isinstance(nd, ast.Call):
+                        fname = nd.func.attr if isinstance(nd.func, ast.Attribute) else getattr(nd.func, "id", "")
+                        if fname == "all":
+                            guard_all.append(first)
                 continue
             if isinstance(st, ast.Assign) and len(st.targets) == 1:
                 tgt = st.targets[0]
@@ -909,8 +922,11 @@ class Translator:
                 # list is defined once by hand (Proofs/Lemmas) and applied to this term
                 if (isinstance(v, ast.Call) and isinstance(v.func, ast.Attribute) and isinstance(v.func.value, ast.Name)
                         and v.func.value.id == "np" and v.func.attr in ("mean", "nanmean") and len(v.args) == 1
-                        and all(k.arg == "axis" and isinstance(k.value, ast.Constant) and k.value.value == 0 for k in v.keywords)
                         and spec.get("reduction") == v.func.attr):
+                    kw = {k.arg: ast.unparse(k.value) for k in v.keywords}
+                    want = spec.get("reduction_kwargs", {})
+                    if kw != want:
+                        raise Refusal(f"reduction np.{v.func.attr} called with keywords {kw}, declared {want}")
                     notes.append(f"reduction np.{v.func.attr} over the samples: pointwise term emitted")
                     v = v.args[0]
                 if isinstance(v, ast.Tuple):
@@ -935,21 +951,31 @@ class Translator:
             sig_d = [s for p, s in zip(params, sig) if p not in fun_params]
             call = " ".join((f"{ns}.{san(fun_params[p])}" if p in fun_params else san(p)) for p in params)
             out.append(f"{pre} {name}_d {' '.join(sig_d)} : {rty} :=\n  {name} {call}\n")
+        if guard_all:
+            name_rej = f"{name}_rejects_all"
+            notes.append("guard uses all(): " + "; ".join(guard_all))
+        else:
+            name_rej = f"{name}_rejects"
+        if guard_all:
+            name_rej = f"{name}_rejects_all"
+            notes.append("guard uses all(): " + "; ".join(guard_all))
+        else:
+            name_rej = f"{name}_rejects"
         while len(guard_nlets) < len(guards):
             guard_nlets.append(prev_n)
         if guards and (tuple_params or none_params or any(guard_nlets)):
             # guards that mention locals / tuple parameters: full signature, the lets in force at the guard
             gs = [g if not n else "(" + "".join(l + "; " for l in lets[:n]) + g + ")" for g, n in zip(guards, guard_nlets)]
             if R:
-                out.append(f"/-- the inputs the Python function rejects (raises) -/\ndef {name}_rejects {' '.join(sig)} : Prop :=\n  " + " ∨ ".join(gs) + "\n")
+                out.append(f"/-- the inputs the Python function rejects (raises) -/\ndef {name_rej} {' '.join(sig)} : Prop :=\n  " + " ∨ ".join(gs) + "\n")
             else:
-                out.append(f"def {name}_rejects {' '.join(sig)} : Bool :=\n  " + " || ".join(gs) + "\n")
+                out.append(f"def {name_rej} {' '.join(sig)} : Bool :=\n  " + " || ".join(gs) + "\n")
         elif guards:
             gsig = [s for p, s in zip(params, sig) if env[p] == "num"]
             if R:
-                out.append(f"/-- the inputs the Python function rejects (raises) -/\ndef {name}_rejects {' '.join(gsig)} : Prop :=\n  " + " ∨ ".join(guards) + "\n")
+                out.append(f"/-- the inputs the Python function rejects (raises) -/\ndef {name_rej} {' '.join(gsig)} : Prop :=\n  " + " ∨ ".join(guards) + "\n")
             else:
-                out.append(f"def {name}_rejects {' '.join(gsig)} : Bool :=\n  " + " || ".join(guards) + "\n")
+                out.append(f"def {name_rej} {' '.join(gsig)} : Bool :=\n  " + " || ".join(guards) + "\n")
         return "\n".join(self.aux + out), notes + self.notes
 
 
